@@ -109,17 +109,18 @@ class PairPot(Calculator):
 class Scripted:
     """criteria stub: records what it is handed (hook), answers from a script"""
 
-    def __init__(self, verdicts, hook=None, real=None):
+    def __init__(self, verdicts, hook=None, real=None, np_bool=False):
         self.v = verdicts
         self.hook = hook
         self.real = real
+        self.np_bool = np_bool          # a criteria written as `np.exp(-dE / kT) > rng.random()` answers with numpy.bool_, not bool
 
     def evaluate(self, context, *a, **k):
         if self.hook:
             self.hook(context)
         r = self.real.evaluate(context) if self.real is not None else None
         if self.v:
-            return self.v.pop(0)
+            return np.bool_(self.v.pop(0)) if self.np_bool else self.v.pop(0)
         return bool(r) if r is not None else True
 
     def to_dict(self):
@@ -223,7 +224,7 @@ class Sim:
                     if isinstance(leaf_objects(mv)[0], mt):
                         real = ct()
                         break
-            crit = Scripted(self.verdicts if p.get("criteria") != "real" else [], hook=self.at_evaluate, real=real)   # "both": the real criteria is evaluated, the scripted verdict returned
+            crit = Scripted(self.verdicts if p.get("criteria") != "real" else [], hook=self.at_evaluate, real=real, np_bool=bool(p.get("np_verdicts")))   # "both": the real criteria is evaluated, the scripted verdict returned
             if p.get("criteria") == "shipped":
                 # the shipped criteria object itself (serialisable): the default one for the kind of the first leaf
                 crit = None
